@@ -14,7 +14,9 @@ if "--tier" in sys.argv: tier = sys.argv[sys.argv.index("--tier") + 1]
 wt = tempfile.mkdtemp(prefix="seedwt-", dir="/tmp"); os.rmdir(wt)
 def sh(cmd, **kw):
     return subprocess.run(cmd, shell=True, capture_output=True, text=True, **kw)
-meta = {"property": prop, "patch": "patch.diff", "ran": []}
+meta = {"property": prop, "patch": "patch.diff", "demonstration": "demo.py", "origin": "independent sub-agent given only the property text and a scratch worktree", "ran": []}
+if os.path.exists(os.path.join(d, "notes.md")):
+    meta["needs_to_manifest"] = open(os.path.join(d, "notes.md")).read()[:1500]
 if os.path.exists(os.path.join(d, "meta.json")):
     try: meta.update({k: v for k, v in json.load(open(os.path.join(d, "meta.json"))).items() if k in ("needs", "description", "origin")})
     except Exception: pass
